@@ -28,6 +28,9 @@ CHECKS = {
  "C06": ("model_checking", BFS + "; depth-bounded from six initial representation/sharing states",
          "every history up to depth 4-6 over three String variables, started from the empty state and from literal / attached / shared / slack states, is executed and every variable compared with a std::string-like reference after each step",
          "contents over a small byte alphabet, length <= 3-6; infinite space, depth bounded", "DESIGN.md §4 C06"),
+ "C07": ("model_checking", BFS + "; depth-bounded from four initial sharing states, value-tree reference",
+         "every history up to depth 3-5 over three Variant variables incl. nested containers; after each step every accessor/coercion, the nested structure, copy equality, reference counts and the ledger are compared with a value-tree model",
+         "NaN excluded; a Variant is not inserted into its own payload; infinite space, depth bounded", "DESIGN.md §4 C07"),
  "C08": ("model_checking", BFS + "; fix-point over (owned, head-room, size, capacity, attached) of two Buffers",
          "every reachable combination of ownership, head-room, size and capacity (sizes up to 6/9) with every operation incl. attach mixed with owning operations; terminator and bounds decided on every transition (ASan)",
          "byte values are data only (canonical-state argument); self arguments excluded", "DESIGN.md §4 C08"),
